@@ -5,7 +5,9 @@ Writes /verif/automut/patches/<id>.patch and /verif/automut/index.tsv (id, file,
 One mutant = one token-level change on one line outside comments, attributes, doc strings and `#[cfg(test)]`
 modules. The sample is deterministic (every k-th site per operator and file), so re-running gives the same set.
 
-Usage: python3 gen_auto_mutants.py [max_per_file_and_operator]
+Usage: python3 gen_auto_mutants.py [max_per_file_and_operator [batch-suffix [offset-fraction-in-percent]]]
+  e.g. `gen_auto_mutants.py 2` -> patches/, index.tsv;  `gen_auto_mutants.py 2 2 50` -> patches2/, index2.tsv with the
+  sample shifted by half a stride (different sites)
 """
 import os, re, subprocess, sys, hashlib
 
@@ -90,9 +92,15 @@ def strip_strings_and_comments(l):
 
 def main():
     per = int(sys.argv[1]) if len(sys.argv) > 1 else 3
-    os.makedirs(OUT + "/patches", exist_ok=True)
-    for f in os.listdir(OUT + "/patches"):
-        os.remove(OUT + "/patches/" + f)
+    batch = sys.argv[2] if len(sys.argv) > 2 else ""
+    shift = int(sys.argv[3]) if len(sys.argv) > 3 else 0
+    PD = OUT + "/patches" + batch
+    os.makedirs(PD, exist_ok=True)
+    for f in os.listdir(PD):
+        os.remove(PD + "/" + f)
+    seen = set()
+    if batch:
+        seen = {l.split("\t")[0] for l in open(OUT + "/index.tsv")}
     assert subprocess.run(["git", "-C", REPO, "status", "--porcelain", "--untracked-files=no"], capture_output=True, text=True).stdout == "", "/repo not clean"
     index = []
     for f in FILES:
@@ -124,7 +132,7 @@ def main():
                 continue
             # deterministic spread: `per` sites per (file, operator)
             step = max(1, len(sites) // per)
-            chosen = sites[::step][:per]
+            chosen = sites[(step * shift) // 100::step][:per]
             for (i, a, b, new) in chosen:
                 l = src[i]
                 mutated = l[:a] + new + l[b:]
@@ -136,10 +144,12 @@ def main():
                 d = subprocess.run(["git", "-C", REPO, "diff"], capture_output=True, text=True).stdout
                 open(path, "w").write("\n".join(src))
                 mid = "am_" + hashlib.sha1((f + str(i) + name + str(a)).encode()).hexdigest()[:8]
-                open(f"{OUT}/patches/{mid}.patch", "w").write(d)
+                if mid in seen:
+                    continue
+                open(f"{PD}/{mid}.patch", "w").write(d)
                 index.append((mid, f, str(i + 1), name, l.strip()[:110], mutated.strip()[:110]))
     assert subprocess.run(["git", "-C", REPO, "status", "--porcelain", "--untracked-files=no"], capture_output=True, text=True).stdout == "", "/repo left dirty"
-    with open(OUT + "/index.tsv", "w") as o:
+    with open(OUT + "/index" + batch + ".tsv", "w") as o:
         for r in index:
             o.write("\t".join(r) + "\n")
     print(len(index), "mutants written")
